@@ -280,6 +280,13 @@ def gen(seed, index, tier):
             # metadata about the unservable entries is part of the faulty world, not of the reference
             badspec.append({"p": pre + ".names", "k": "file", "d": "\n".join(blocks)})
             kinds = kinds + ["link-block-names-it"]
+    if rng.random() < 0.15 and not any(k.startswith("cache-") for k in kinds):
+        # an old cache file is lying around in a tree the server may read but not change
+        base.append({"p": pre + ".cache.pygopherd.dir", "k": "file", "d": "left over, expired long ago\n",
+                     "age": 10 * world.BASE_AGE})
+        for op in ("unlink",):
+            faults.append({"op": op, "rel": pre + ".cache.pygopherd.dir", "kind": "EACCES", "nth": "all"})
+        kinds = list(kinds) + ["stale-cache-readonly-tree"]
     handlers = rng.choice(["default", "default", "plaindir"])
     if any(k in ZIP_KINDS for k in kinds) or (len(dname) == 1 and rng.random() < 0.7):
         handlers = "full"
